@@ -63,7 +63,11 @@ def handleConc (st : ConcState) : List String → Option (ConcState × String)
       else pure (verdict st (applyActs st [.compStart, .compCommit st.σ.tabs]) "compaction-not-enabled")
   | ["tropen", base] => do
       let b ← base.toNat?
-      match applyAct st .trOpen with
+      -- numbers consumed without entries (a discarded transaction's range: `Transaction.discard` advances
+      -- `db.seq`; a failed group) show up as a gap: replay it as `seqSkip`, as for `insert`
+      let gap := b - st.σ.pub
+      let st0 := if gap > 0 ∧ st.σ.pending = [] ∧ st.σ.tr.isNone then (applyAct st (.seqSkip gap)).getD st else st
+      match applyAct st0 .trOpen with
       | some st' => if st'.σ.pub = b then pure (st', "ok") else pure (st, s!"illegal transaction-base-{b}-model-{st'.σ.pub}")
       | none => pure (st, "illegal transaction-open-not-enabled(write-buffer-not-empty-or-frozen-buffer-pending-or-group-pending)")
   | ["trinstall", seq] => do
